@@ -476,6 +476,89 @@ impl CongestionController {
 #[derive(Clone)]
 pub struct ArcCC(Arc<Mutex<CongestionController>>);
 
+/// Read-only copy of the controller's state for the verification harness.
+#[cfg(genmeta_gm_quic_verif)]
+#[derive(Debug, Clone)]
+pub struct VerifCcSnapshot {
+    pub cwnd: usize,
+    pub ssthresh: usize,
+    pub bytes_in_flight: usize,
+    pub recovery_start: Option<Instant>,
+    pub pto_count: u32,
+    pub loss_detection_timer: Option<Instant>,
+    pub smoothed_rtt: Duration,
+    pub rttvar: Duration,
+    pub need_send_ack_eliciting: [usize; 3],
+    pub largest_acked: [Option<u64>; 3],
+    pub loss_time: [Option<Instant>; 3],
+    pub time_of_last_ack_eliciting: [Option<Instant>; 3],
+    /// per epoch: (pn, time sent, ack eliciting, counted in flight, size, state: 0 in flight / 1 acked / 2 declared lost)
+    pub sent: [Vec<(u64, Instant, bool, bool, usize, u8)>; 3],
+}
+
+#[cfg(genmeta_gm_quic_verif)]
+impl ArcCC {
+    pub fn verif_snapshot(&self) -> VerifCcSnapshot {
+        use crate::packets::State;
+        let guard = self.0.lock().unwrap();
+        let (cwnd, ssthresh, bytes_in_flight, recovery_start) = guard
+            .algorithm
+            .verif_state()
+            .unwrap_or((guard.algorithm.congestion_window(), 0, 0, None));
+        let spaces = &guard.packet_spaces;
+        let per_space = |f: &dyn Fn(&PacketSpace) -> Vec<(u64, Instant, bool, bool, usize, u8)>| {
+            [f(&spaces[Epoch::Initial]), f(&spaces[Epoch::Handshake]), f(&spaces[Epoch::Data])]
+        };
+        VerifCcSnapshot {
+            cwnd,
+            ssthresh,
+            bytes_in_flight,
+            recovery_start,
+            pto_count: guard.pto_count,
+            loss_detection_timer: guard.loss_detection_timer,
+            smoothed_rtt: guard.rtt.smoothed_rtt(),
+            rttvar: guard.rtt.rttvar(),
+            need_send_ack_eliciting: guard.need_send_ack_eliciting_packets,
+            largest_acked: [
+                spaces[Epoch::Initial].largest_acked_packet,
+                spaces[Epoch::Handshake].largest_acked_packet,
+                spaces[Epoch::Data].largest_acked_packet,
+            ],
+            loss_time: [
+                spaces[Epoch::Initial].loss_time,
+                spaces[Epoch::Handshake].loss_time,
+                spaces[Epoch::Data].loss_time,
+            ],
+            time_of_last_ack_eliciting: [
+                spaces[Epoch::Initial].time_of_last_ack_eliciting_packet,
+                spaces[Epoch::Handshake].time_of_last_ack_eliciting_packet,
+                spaces[Epoch::Data].time_of_last_ack_eliciting_packet,
+            ],
+            sent: per_space(&|space| {
+                space
+                    .sent_packets
+                    .iter()
+                    .map(|p| {
+                        let state = match p.state {
+                            State::Inflight => 0,
+                            State::Acked => 1,
+                            State::Retransmitted => 2,
+                        };
+                        (
+                            p.packet_number,
+                            p.time_sent,
+                            p.ack_eliciting,
+                            p.count_for_cc,
+                            p.sent_bytes,
+                            state,
+                        )
+                    })
+                    .collect()
+            }),
+        }
+    }
+}
+
 impl ArcCC {
     pub fn new(
         algorithm: Algorithm,
